@@ -12,6 +12,8 @@ issue a never-repeating session id per login, a clock that jumps at every step):
      modulo state outside the fingerprint);
  (a') the same sequences to depth 2 (thorough 3) with the clock frozen, so that consecutive operations fall
      into one clock second (no operation may lean on "the time has moved on" to start afresh);
+ (a'') every single operation (thorough: every pair) with the host in three non-UTC zones: the timestamp is the epoch
+     second whatever the zone;
  (c) interleavings: two API instances (different ids/keys, same or different API type, configured with the
      same host address in half of the pairs and different addresses in the rest) run their
      operations as concurrent tasks; the only freedom is which connection's pending read the device
@@ -55,8 +57,10 @@ VARIANTS = {
     "t1_garbage_state": (1, "get_state", {}, [Ellipsis, GARBAGE], ["login1", "get_state1"], "RuntimeError"),
     "t2_garbage_state": (2, "get_breeze_state", {}, [Ellipsis, GARBAGE], ["login2", "get_state2"], "RuntimeError"),
     "t2_unsupported_mode": (2, "breeze_main", {"mode": "heat", "remote_key": "coolonly"}, None, ["login2", "get_state2"], "RuntimeError"),
+    # a separate-swing thermostat control with swing requested that is aborted after the state read
+    "t2_special_aborted": (2, "breeze_swing", {"mode": "heat", "remote_key": "special-coolonly"}, None, ["login2", "get_state2"], "RuntimeError"),
 }
-ALPHA = {1: OPS1 + ["t1_bad_name", "t1_garbage_state"], 2: OPS2 + ["t2_garbage_state", "t2_unsupported_mode"]}
+ALPHA = {1: OPS1 + ["t1_bad_name", "t1_garbage_state"], 2: OPS2 + ["breeze_temp_only", "t2_garbage_state", "t2_unsupported_mode", "t2_special_aborted"]}
 import os
 
 _SEED = int(os.environ.get("VERIF_SEED", "0") or 0)
@@ -70,8 +74,11 @@ def resolve(name):
     if name in VARIANTS:
         kind, op, args, script, shape, outc = VARIANTS[name]
         args = dict(args)
-        if args.pop("remote_key", None) == "coolonly":
+        rk = args.pop("remote_key", None)
+        if rk == "coolonly":
             args["remote_obj"] = remote("plain", modes=("cool",))[0]
+        elif rk == "special-coolonly":
+            args["remote_obj"] = remote("special", modes=("cool",))[0]
         return op, args, script, shape, outc
     return name, {}, None, expected_shape(name), "ok"
 
@@ -136,7 +143,7 @@ def check_op(res, case, who, kind, did, key, rec, session, frames, wtimes):
 
 
 def run_sequence(kind, names, res, case, record_states=True):
-    set_zone("UTC")
+    set_zone(case.get("zone") or "UTC")
     frozen = bool(case.get("frozen"))  # every operation of the sequence happens within one clock second
     with Clock(T0) as clk, ApiWorld(kind, *IDS[0], device=Device(0x5E000000)) as w:
         out = w.connect()
@@ -328,6 +335,8 @@ def jobs(tier, seed):
                 js.append({"part": "seq", "kind": kind, "prefix": [first], "depth": D})
     for kind in (1, 2):
         js.append({"part": "frozen", "kind": kind, "depth": 3 if tier == "thorough" else 2})
+        for zone in ("Asia/Kathmandu", "America/New_York", "Pacific/Kiritimati"):
+            js.append({"part": "zoned", "kind": kind, "zone": zone, "depth": 2 if tier == "thorough" else 1})
     specs = pair_specs(tier)
     n = 48 if tier == "thorough" else 16
     for i in range(n):
@@ -337,6 +346,19 @@ def jobs(tier, seed):
 
 def run_job(job):
     res = Res()
+    if job["part"] == "zoned":
+        # "a current timestamp" is the epoch second, whatever the host's zone
+        kind = job["kind"]
+        try:
+            for n in range(1, job["depth"] + 1):
+                for names in itertools.product(ALPHA[kind], repeat=n):
+                    case = {"part": "seq", "kind": kind, "names": list(names), "zone": job["zone"]}
+                    checked = run_sequence(kind, list(names), res, case, record_states=False)
+                    res.traces += 1
+                    res.case(("zoned", kind, job["zone"], names), nontrivial=checked >= 1)
+        finally:
+            set_zone("UTC")
+        return res
     if job["part"] == "frozen":
         kind = job["kind"]
         for n in range(1, job["depth"] + 1):
@@ -400,7 +422,10 @@ def run_job(job):
 def replay(case):
     res = Res()
     if case["part"] == "seq":
-        run_sequence(case["kind"], case["names"], res, case)
+        try:
+            run_sequence(case["kind"], case["names"], res, case)
+        finally:
+            set_zone("UTC")
     else:
         spec = [(k, list(n)) for k, n in case["spec"]]
         ch = X.Chooser(case["choices"] or [])
